@@ -33,14 +33,21 @@ package nsqd
 // the two sources are open only after a pause check of THIS topic that answered "not paused", with at least one channel
 //@ pred lSourcesGuarded(t *Topic, n int, open bool) := open ==> n > 0 && lTPauseFor == t && !lTPauseObs
 
+// (round 4, area A) C02 "each channel owns its own Message object ... attempts start at 1": the copy for channel i > 0 is handed off
+// with Attempts == 0 (r4AHandAttempts = the value AT the hand-off). Channel.PutMessage / PutMessageDeferred give up the delivery
+// bookkeeping of the handed message (their frames list m.Attempts, clientID, deliveryTS, pri, index): after iteration 0 the pump
+// knows nothing about msg.Attempts any more, so a copy that READS the mutable fields of the shared object cannot prove this clause.
+// C04 "published deferred with delay d ... not delivered before d" and C07 "timestamp identical on every channel" for EVERY channel
+// of the round rest on [same-content] / [deferred-iff-delay]: hence the pump now also serves C02, C04 and C07.
 //@ func (t *Topic) messagePump()
-//@   props C03 C01
+//@   props C03 C01 C02 C04 C07
 //@   requires flowTopic(t)
 //@   inst NewMessage.gm msg
 //@   modifies Channel.messageCount, Channel.deferredMessages, Channel.deferredPQ, mapstore(map[MessageID]*pqueue.Item), elems(*pqueue.Item), pqueue.Item.Index,
 //@        t.channelMap, mapstore(map[string]*Channel), elems(*Channel), elems(byte), Message.Timestamp, Message.deferred,
 //@        deferredPushes, deferredPushOK, lastDeferredMsg, lastNow, backendWrites, lastWriteMsg, lastWriteQueue, lastWriteErr, healthSets, lastHealthErr, lastHealthNSQD,
-//@        chanPuts, chanPutOK, lastChanPutMsg, lTPauseFor, lTPauseObs, lHandCalls, lHandChan, lHandMsg, lHandDeferred, lHandDelay
+//@        chanPuts, chanPutOK, lastChanPutMsg, lTPauseFor, lTPauseObs, lHandCalls, lHandChan, lHandMsg, lHandDeferred, lHandDelay,
+//@        Message.Attempts, Message.deliveryTS, Message.clientID, Message.pri, Message.index
 //@   loop 0
 //@     invariant[nothing-before-start] len(chans) == 0 && memoryMsgChan == nil && backendChan == nil
 //@   loop 1
@@ -55,7 +62,9 @@ package nsqd
 //@     invariant[chans-ok] lChansOK(chans, len(chans))
 //@     invariant[hand-offs-monotone] r3aHandMonotone(old(lHandCalls))
 //@   loop 4
-//@     assume msg != nil
+//     (round 4, area A) `assume msg != nil` REMOVED: the memory queue carries non-nil messages (chaninv chan[*Message], flow file),
+//     the backend path is decodeMessage's [accept]; stated as an invariant of the main loop's hand-off instead
+//@     invariant[message] msg != nil
 //@     invariant[chans-ok] lChansOK(chans, len(chans))
 //@     invariant[pause-guard] lSourcesGuarded(t, len(chans), memoryMsgChan != nil || backendChan != nil)
 //@     invariant[each-channel-served] rangeindex >= 0 ==> lHandChan == chans[rangeindex]
@@ -65,3 +74,4 @@ package nsqd
 //@     invariant[deferred-iff-delay] rangeindex >= 0 ==> lHandDeferred == (msg.deferred != 0) && (lHandDeferred ==> lHandDelay == msg.deferred)
 //@     invariant[first-gets-the-object] rangeindex == 0 ==> lHandMsg == msg
 //@     invariant[others-get-a-copy] rangeindex > 0 ==> lHandMsg != msg
+//@     invariant[copies-start-unattempted] rangeindex > 0 ==> r4AHandAttempts == 0
